@@ -11,6 +11,7 @@
     above and below observe (upward messages resp. upward byte stream, downward sends, Fault/livelock);
     [weq] compares final states (liveness + layer state). *)
 From Coq Require Import ZArith List Bool.
+From Nice Require Data.FramingModel Data.RecvProofs Data.WakeProofs.
 From Nice Require Import Stream.StreamBase Stream.StreamProofs
   Stream.TurnTcpModel Stream.TurnTcpProofs Stream.TcpQueueModel Stream.TcpQueueProofs
   Stream.PsslModel Stream.PsslProofs Stream.Socks5Model Stream.Socks5Proofs Stream.HttpModel Stream.HttpProofs
@@ -258,3 +259,19 @@ Theorem C17_no_fault_http : forall G cs, caps_ok cs ->
   ~ In EFault (snd (http_run G (alive http_init) cs)) /\
   ~ In ELive (snd (http_run G (alive http_init) cs)).
 Proof. exact http_no_fault. Qed.
+
+(** ICE-TCP frames (RFC 4571) read through the component's GSource: after agent_consume_next_rfc4571_chunk has handed out a frame,
+    rfc4571_wakeup_needed is set exactly when a complete next frame is already in the reassembly buffer (so a frame that arrived in the same
+    read as its predecessor, even one ending on the last buffered byte, wakes the reader), and always after a partial hand-out in
+    byte-stream mode.  Model: Data/FramingModel.v (next_frame / consume), statements checked against agent.c on every run. *)
+Theorem C17_rfc4571_wakeup_iff_whole_frame_buffered : forall s s',
+  Nice.Data.RecvProofs.bytes_ok (Nice.Data.FramingModel.r_buf s) -> Nice.Data.FramingModel.next_frame s = Some s' ->
+  Nice.Data.FramingModel.r_wake s' = negb (Nice.Data.FramingModel.missing s').
+Proof. exact Nice.Data.WakeProofs.next_frame_wake. Qed.
+
+Theorem C17_rfc4571_consume_wakes_reader : forall bs s tgt s' r,
+  Nice.Data.RecvProofs.bytes_ok (Nice.Data.FramingModel.r_buf s) -> Nice.Data.FramingModel.consume bs s tgt = Some (s', r) ->
+  Nice.Data.FramingModel.r_wake s' = negb (Nice.Data.FramingModel.missing s') \/
+  (Nice.Data.FramingModel.r_wake s' = true /\ Nice.Data.FramingModel.r_fs s' = Nice.Data.FramingModel.r_fs s /\
+   Nice.Data.FramingModel.r_fo s' = Nice.Data.FramingModel.r_fo s /\ Nice.Data.FramingModel.r_buf s' = Nice.Data.FramingModel.r_buf s).
+Proof. exact Nice.Data.WakeProofs.consume_wake. Qed.
